@@ -67,6 +67,11 @@ type dstarRun struct {
 	world *guardModel
 	d     *dynamic.DStarLite
 	zero  bool // a zero weight is or was present in the world
+	// replanAt is the node index at which the planner last replanned
+	// (construction or a non-empty UpdateWorld); kmLost records a MoveTo made
+	// after Step had moved away from it.
+	replanAt int
+	kmLost   bool
 }
 
 func (r *dstarRun) key(base string) string { return base }
@@ -177,10 +182,17 @@ func (r *dstarRun) step(stage string) (moved bool, fail *vk.Failure) {
 //     costs. gonum neither documents nor rejects zero weights; with a
 //     zero-weight cycle the g/rhs values of the cycle support each other, so
 //     stale finite estimates survive the loss of the last route to the goal.
+//   - MoveTo sets its record of the last replanning position to the current
+//     position before moving, so the distance covered by Step calls since the
+//     last UpdateWorld never enters the key modifier; with a non-zero
+//     heuristic the keys left in the queue are then no longer lower bounds.
 func checkDStar(c dstarCase) *vk.Failure {
-	f, zero := checkDStar1(c)
+	f, zero, kmLost := checkDStar1(c)
 	if f == nil {
 		return nil
+	}
+	if kmLost && c.HMode == 2 && !zero {
+		return vk.Failf("moveto-after-step", "MoveTo after Step without UpdateWorld in between, non-zero heuristic: %s: %s", f.Key, f.Msg)
 	}
 	if zero {
 		return vk.Failf("zero-weight-world", "world with zero-weight arcs: %s: %s", f.Key, f.Msg)
@@ -195,10 +207,10 @@ func checkDStar(c dstarCase) *vk.Failure {
 	return f
 }
 
-func checkDStar1(c dstarCase) (fail *vk.Failure, zero bool) {
+func checkDStar1(c dstarCase) (fail *vk.Failure, zero, kmLost bool) {
 	r := &dstarRun{c: &c}
-	defer func() { zero = r.zero }()
-	return checkDStar2(r, c), false
+	defer func() { zero, kmLost = r.zero, r.kmLost }()
+	return checkDStar2(r, c), false, false
 }
 
 func checkDStar2(r *dstarRun, c dstarCase) *vk.Failure {
@@ -289,6 +301,7 @@ func checkDStar2(r *dstarRun, c dstarCase) *vk.Failure {
 	if r.d.Here().ID() != src.ID() {
 		return vk.Failf("here", "after NewDStarLite Here() = %d, start is %d", r.d.Here().ID(), src.ID())
 	}
+	r.replanAt = c.S
 	prevP, prevW, f := r.verifyPath("after NewDStarLite")
 	if f != nil {
 		return f
@@ -352,6 +365,10 @@ func checkDStar2(r *dstarRun, c dstarCase) *vk.Failure {
 						continue
 					}
 				}
+				if r.m.idx[r.d.Here().ID()] != r.replanAt {
+					r.kmLost = true
+					vk.Class("dstar-op=moveto-after-step")
+				}
 				if _, f := r.call("moveto", "MoveTo "+stage, false, func() { r.d.MoveTo(simple.Node(c.IDs[op.Node])) }); f != nil {
 					return f
 				}
@@ -385,6 +402,7 @@ func checkDStar2(r *dstarRun, c dstarCase) *vk.Failure {
 				vk.Class("dstar=negative-update")
 				return nil // state after the documented panic is not specified
 			}
+			r.replanAt = r.m.idx[r.d.Here().ID()]
 			// did the update change the optimum of the previous plan?
 			if prevP != nil {
 				here := r.m.idx[r.d.Here().ID()]
